@@ -229,25 +229,86 @@ def const_program(case):
     sh = "x".join(map(str, shape))
     el = case["el"]
     tsl = tsl_text(tb, steps, 0)
+    l3 = f'memref<{sh}x{el}, "L3">'
+    l3t = f'memref<{sh}x{el}, {tsl}, "L3">'
+    glob = f'  "memref.global"() <{{alignment = 64 : i64, constant, initial_value = dense<{nested(vals, shape)}> : tensor<{sh}x{el}>, sym_name = "g", sym_visibility = "private", type = memref<{sh}x{el}>}}> : () -> ()\n'
     if case["kind"] == "const":
         src = (
             f'builtin.module {{\n  %0 = arith.constant dense<{nested(vals, shape)}> : memref<{sh}x{el}, "L1">\n'
             f'  %1 = "snax.layout_cast"(%0) : (memref<{sh}x{el}, "L1">) -> memref<{sh}x{el}, {tsl}, "L1">\n'
             f'  "test.op"(%1) : (memref<{sh}x{el}, {tsl}, "L1">) -> ()\n}}'
         )
-    else:
+    elif case["kind"] == "global":
+        src = f'builtin.module {{\n{glob}  %0 = memref.get_global @g : {l3}\n  %1 = "snax.layout_cast"(%0) : ({l3}) -> {l3t}\n  "test.op"(%1) : ({l3t}) -> ()\n}}'
+    elif case["kind"] == "global-two-gets":
+        # the same global read twice, each read re-laid-out
         src = (
-            f'builtin.module {{\n  "memref.global"() <{{alignment = 64 : i64, constant, initial_value = dense<{nested(vals, shape)}> : tensor<{sh}x{el}>, sym_name = "g", sym_visibility = "private", type = memref<{sh}x{el}>}}> : () -> ()\n'
-            f'  %0 = memref.get_global @g : memref<{sh}x{el}, "L3">\n'
-            f'  %1 = "snax.layout_cast"(%0) : (memref<{sh}x{el}, "L3">) -> memref<{sh}x{el}, {tsl}, "L3">\n'
-            f'  "test.op"(%1) : (memref<{sh}x{el}, {tsl}, "L3">) -> ()\n}}'
+            f'builtin.module {{\n{glob}  %0 = memref.get_global @g : {l3}\n  %1 = "snax.layout_cast"(%0) : ({l3}) -> {l3t}\n  "test.op"(%1) : ({l3t}) -> ()\n'
+            f'  %2 = memref.get_global @g : {l3}\n  %3 = "snax.layout_cast"(%2) : ({l3}) -> {l3t}\n  "test.op"(%3) : ({l3t}) -> ()\n}}'
+        )
+    else:  # global-two-casts: one read feeding two casts
+        src = (
+            f'builtin.module {{\n{glob}  %0 = memref.get_global @g : {l3}\n  %1 = "snax.layout_cast"(%0) : ({l3}) -> {l3t}\n  "test.op"(%1) : ({l3t}) -> ()\n'
+            f'  %3 = "snax.layout_cast"(%0) : ({l3}) -> {l3t}\n  "test.op"(%3) : ({l3t}) -> ()\n}}'
         )
     return src, vals, shape
 
 
-def run_const(case, out):
+def logical_values(value, S, shape, eb, depth=0):
+    """Logical contents reaching `value` in the compiled module, decoded with the layout of each carrier's *type*
+    (independent layout oracle).  Returns (list of values in row-major logical order) or raises Violation."""
     from xdsl.dialects import arith, memref
-    from xdsl.dialects.builtin import DenseIntOrFPElementsAttr
+    from xdsl.dialects.builtin import DenseIntOrFPElementsAttr, NoneAttr
+    from xdsl.traits import SymbolTable
+
+    from snaxc.dialects.snax import LayoutCast
+    from snaxc.dialects.tsl import TiledStridedLayoutAttr
+
+    if depth > 6:
+        raise Violation("constant-relayout", "cannot trace the constant reaching a consumer")
+    op = value.owner
+
+    def decode(dense, ty):
+        data = dense.data.data
+        lay = ty.layout
+        out_vals = []
+        if isinstance(lay, TiledStridedLayoutAttr):
+            tb = [[st.bound for _, st in ts] for ts in lay.data.tstrides]
+            steps = [[st.step for _, st in ts] for ts in lay.data.tstrides]
+            off = lay.data.offset or 0
+            for idx in all_indices(shape):
+                a = address(idx, tb, steps, off) * eb
+                out_vals.append(int.from_bytes(data[a : a + eb], "little"))
+        elif isinstance(lay, NoneAttr):
+            for k in range(len(data) // eb):
+                out_vals.append(int.from_bytes(data[k * eb : (k + 1) * eb], "little"))
+        else:
+            raise Violation("constant-relayout", f"unexpected layout {lay} on a constant")
+        return out_vals
+
+    if isinstance(op, arith.ConstantOp) and isinstance(op.value, DenseIntOrFPElementsAttr):
+        return decode(op.value, value.type)
+    if isinstance(op, memref.GetGlobalOp):
+        g = SymbolTable.lookup_symbol(S, op.name_)
+        if not isinstance(g, memref.GlobalOp):
+            raise Violation("constant-relayout", f"memref.get_global @{op.name_.string_value()} refers to a global that no longer exists")
+        if not isinstance(g.initial_value, DenseIntOrFPElementsAttr):
+            raise Violation("constant-relayout", "global lost its initial value")
+        if g.type.layout != value.type.layout:
+            raise Violation("constant-relayout", f"get_global type layout {value.type.layout} differs from the global's layout {g.type.layout}")
+        return decode(g.initial_value, value.type)
+    if isinstance(op, (LayoutCast, memref.MemorySpaceCastOp)):
+        return logical_values(op.source, S, shape, eb, depth + 1)
+    if isinstance(op, memref.AllocOp):
+        for o in S.walk():
+            if isinstance(o, memref.CopyOp) and o.destination is value:
+                return logical_values(o.source, S, shape, eb, depth + 1)  # a copy moves logical contents (C05's job)
+        raise Violation("constant-relayout", "a consumer reads an allocation that is never filled")
+    raise Violation("constant-relayout", f"consumer operand defined by {getattr(op, 'name', 'block argument')}")
+
+
+def run_const(case, out):
+    from xdsl.dialects import test
 
     src, vals, shape = const_program(case)
     try:
@@ -257,30 +318,23 @@ def run_const(case, out):
         out["rejected"] = f"{r.stage}:{r.cls}"
         return out
     out["runs"] = out["zero_fault_runs"] = 1
-    dense = None
-    for op in S.walk():
-        if isinstance(op, arith.ConstantOp) and isinstance(op.value, DenseIntOrFPElementsAttr):
-            dense = op.value
-        if isinstance(op, memref.GlobalOp) and isinstance(op.initial_value, DenseIntOrFPElementsAttr):
-            dense = op.initial_value
-    t = compat.text(S)
-    if "snax.layout_cast" in t or "memref.copy" in t or dense is None:
-        out["probes"]["constant-not-transformed"] = 1
-        return out
     eb = {"i8": 1, "i32": 4}[case["el"]]
-    data = dense.data.data
-    for idx in all_indices(shape):
-        lin = 0
-        for d, i in enumerate(idx):
-            lin = lin * shape[d] + i
-        a = address(idx, case["tb"], case["steps"], 0) * eb
-        got = int.from_bytes(data[a : a + eb], "little")
-        if got != vals[lin]:
-            out.update(status="violation", oracle="constant-relayout", message=f"logical element {idx} (value {vals[lin]}) decodes to {got} at byte {a} of the transformed constant")
-            return out
-    out["probes"]["constant-transformed"] = 1
-    out["nontrivial"] = True
-    out["digest"] = digest_of(len(data))
+    t = compat.text(S)
+    consumers = [o for o in S.walk() if isinstance(o, test.TestOp)]
+    try:
+        for n, c in enumerate(consumers):
+            got = logical_values(c.operands[0], S, shape, eb)
+            if got != vals:
+                k = next(i for i, (x, y) in enumerate(zip(got, vals)) if x != y)
+                out.update(status="violation", oracle="constant-relayout", message=f"consumer {n}: logical element #{k} (value {vals[k]}) decodes to {got[k]}")
+                return out
+    except Violation as v:
+        out.update(status="violation", oracle=v.oracle, message=v.message)
+        return out
+    transformed = "snax.layout_cast" not in t and "_transformed" in t or (case["kind"] == "const" and "memref.copy" not in t and "snax.layout_cast" not in t)
+    out["probes"]["constant-transformed" if transformed else "constant-not-transformed"] = 1
+    out["nontrivial"] = bool(transformed)
+    out["digest"] = digest_of(len(consumers), transformed)
     return out
 
 
@@ -291,7 +345,7 @@ def gen_case(rng, tier):
         rank = rng.choice([1, 2, 2, 3])
         depth = [rng.choice([1, 2, 2, 3]) for _ in range(rank)]
         tb = [[rng.choice([1, 2, 2, 3, 4]) for _ in range(depth[d])] for d in range(rank)]
-        return {"fam": "const", "tb": tb, "steps": gen_steps(rng, tb, pad=False), "el": rng.choice(["i8", "i32"]), "kind": rng.choice(["const", "global"]), "mul": rng.choice([1, 3, 7])}
+        return {"fam": "const", "tb": tb, "steps": gen_steps(rng, tb, pad=False), "el": rng.choice(["i8", "i32"]), "kind": rng.choice(["const", "const", "global", "global", "global-two-gets", "global-two-casts"]), "mul": rng.choice([1, 3, 7])}
     ast = KGen(rng).program()
     envs = [{"n": [rng.choice([0, 1, 2]), rng.choice([0, 1, 2])]} for _ in range(K_ENVS[tier])]
     return {"fam": "kernels", "ast": ast, "envs": envs, "clear": rng.random() < 0.2}
